@@ -181,6 +181,13 @@ type eCast struct {
 }
 type eSub struct{ sel *selectStmt }
 
+// eRow: a row constructor (a, b, ...); eField: field selection (x).name on a composite value
+type eRow struct{ items []sqlExpr }
+type eField struct {
+	x    sqlExpr
+	name string
+}
+
 type tableRef struct {
 	schema string
 	name   string
@@ -199,22 +206,25 @@ type orderItem struct {
 }
 
 type joinClause struct {
-	ref *tableRef
-	on  sqlExpr
+	ref  *tableRef
+	on   sqlExpr
+	left bool // LEFT [OUTER] JOIN
 }
 
 type selectStmt struct {
-	with      []cteDef
-	values    [][]sqlExpr // VALUES (...), (...)
-	cols      []selItem
-	from      *tableRef
-	joins     []joinClause
-	where     sqlExpr
-	order     []orderItem
-	limit     *int
-	offset    int
-	forUpdate bool
-	unionAll  []*selectStmt
+	with       []cteDef
+	values     [][]sqlExpr // VALUES (...), (...)
+	cols       []selItem
+	from       *tableRef
+	joins      []joinClause
+	where      sqlExpr
+	distinctOn []sqlExpr // SELECT DISTINCT ON (...)
+	groupBy    []sqlExpr
+	order      []orderItem
+	limit      *int
+	offset     int
+	forUpdate  bool
+	unionAll   []*selectStmt
 }
 
 type assign struct {
@@ -475,31 +485,62 @@ func (p *sqlParser) selectCore() *selectStmt {
 		return s
 	}
 	p.expectKw("select")
-	if p.isKw("distinct") {
-		p.fail("DISTINCT")
+	if p.acceptKw("distinct") {
+		if !p.acceptKw("on") {
+			p.fail("DISTINCT without ON")
+		}
+		p.expectOp("(")
+		for {
+			s.distinctOn = append(s.distinctOn, p.expr())
+			if !p.acceptOp(",") {
+				break
+			}
+		}
+		p.expectOp(")")
 	}
 	s.cols = p.selectList()
 	if p.acceptKw("from") {
 		s.from = p.tableRef()
 		for {
+			left := false
 			if p.acceptKw("inner") {
 				p.expectKw("join")
+			} else if p.isKw("left") {
+				p.next()
+				p.acceptKw("outer")
+				if p.isKw("join") && p.peekAt(1).kind == tIdent && strings.ToLower(p.peekAt(1).s) == "lateral" {
+					p.fail("LATERAL join")
+				}
+				p.expectKw("join")
+				left = true
 			} else if !p.acceptKw("join") {
 				break
 			}
-			j := joinClause{ref: p.tableRef()}
+			if p.isKw("lateral") {
+				p.fail("LATERAL join")
+			}
+			j := joinClause{ref: p.tableRef(), left: left}
 			p.expectKw("on")
 			j.on = p.expr()
 			s.joins = append(s.joins, j)
 		}
-		if p.isOp(",") || p.isKw("left") || p.isKw("right") || p.isKw("cross") || p.isKw("full") || p.isKw("natural") {
+		if p.isOp(",") || p.isKw("right") || p.isKw("cross") || p.isKw("full") || p.isKw("natural") {
 			p.fail("join form %q", p.peek().s)
 		}
 	}
 	if p.acceptKw("where") {
 		s.where = p.expr()
 	}
-	if p.isKw("group") || p.isKw("having") || p.isKw("window") {
+	if p.acceptKw("group") {
+		p.expectKw("by")
+		for {
+			s.groupBy = append(s.groupBy, p.expr())
+			if !p.acceptOp(",") {
+				break
+			}
+		}
+	}
+	if p.isKw("having") || p.isKw("window") {
 		p.fail("%s", p.peek().s)
 	}
 	if p.acceptKw("order") {
@@ -589,6 +630,11 @@ func (p *sqlParser) tableRef() *tableRef {
 		r.alias = p.ident()
 	} else if t := p.peek(); (t.kind == tIdent && !reservedAfterTable[strings.ToLower(t.s)]) || t.kind == tQIdent {
 		r.alias = p.ident()
+	}
+	if r.sub != nil && r.alias == "" && p.isKw("values") {
+		// `(...) values`: the keyword used as the alias of a derived table (it cannot start anything else here)
+		p.next()
+		r.alias = "values"
 	}
 	if r.sub != nil && r.alias == "" {
 		p.fail("derived table without alias")
@@ -834,7 +880,11 @@ func (p *sqlParser) postfixExpr() sqlExpr {
 
 func (p *sqlParser) typeName() string {
 	var parts []string
-	parts = append(parts, p.ident())
+	first := p.ident()
+	if p.acceptOp(".") {
+		first = p.ident() // "<schema>".<type>: the schema is dropped
+	}
+	parts = append(parts, first)
 	// multi-word types: "timestamp without time zone", "character varying", "double precision"
 	for {
 		t := p.peek()
@@ -881,9 +931,19 @@ func (p *sqlParser) primary() sqlExpr {
 			}
 			e := p.expr()
 			if p.isOp(",") {
-				p.fail("row constructor")
+				row := &eRow{items: []sqlExpr{e}}
+				for p.acceptOp(",") {
+					row.items = append(row.items, p.expr())
+				}
+				p.expectOp(")")
+				return row
 			}
 			p.expectOp(")")
+			if p.isOp(".") {
+				// (composite).field
+				p.next()
+				return &eField{x: e, name: strings.ToLower(p.ident())}
+			}
 			return e
 		}
 		p.fail("unexpected %q", t.s)
